@@ -122,8 +122,8 @@ def strip_some(t):
 
 def strip_try(t):
     t = look(t)
-    if t[0] == "payload":
-        return look(t[1])
+    if payload_of(t) is not None:
+        return payload_of(t)
     return t
 
 
@@ -166,7 +166,7 @@ def respond(ctx):
     for lf in le:
         for e in calls(lf, srv.RESPOND):
             a = look(e[4][2][1])
-            ok = look(e[4][2][0]) == ("arg", 1) and a[0] == "field" and a[1][0] == "downcast" and is_call(look(a[1][1]), "next")
+            ok = look(e[4][2][0]) == ("arg", 1) and payload_of(a) is not None and is_call(payload_of(a), "next")
             ctx.ob("R07.3", "enqueue_responses|each-to-respond", ok, "enqueue_responses hands each response of the vector to respond()", fe.loc(e[1]))
 
 
